@@ -191,11 +191,11 @@ def mvalStr : MVal Float → String
 /-- stable insertion sort by a key -/
 def insertBy {α : Type} (lt : α → α → Bool) (x : α) : List α → List α
   | [] => [x]
-  | y :: ys => if lt x y then x :: y :: ys else y :: insertBy lt x ys
+  | y :: ys => if !lt y x then x :: y :: ys else y :: insertBy lt x ys
 
 def sortBy {α : Type} (lt : α → α → Bool) (l : List α) : List α :=
   l.foldr (fun x acc => insertBy lt x acc) []
--- note: `foldr` + insert-before-greater keeps equal keys in their original order
+-- note: `foldr` + insert-before-the-first-not-smaller keeps equal keys in their original order
 
 def setStr (s : List Str) : String :=
   if s.isEmpty then "_" else ".".intercalate (s.map hex)
